@@ -11,7 +11,7 @@ import time
 
 from mc.engine import hbfs, par, sched
 from mc.engine.report import Violation
-from mc.engine.seams import reset_library
+from mc.engine.seams import reset_library, ambient_logger
 
 import ECAgent.Core as Core
 import ECAgent.Batching as Batching
@@ -101,6 +101,7 @@ class BModel(Core.Model):
 
     def __init__(self, a, b=0, life=2, boom=None, delay=0.0, jitter=0, warm=0, nocoll=None, style=None):
         super().__init__(seed=1)
+        ambient_logger(self)
         self.style, self.life, self.done = style, life, False
         if style == 'own_done':
             self.systems.add_system(Fin('fin', self, priority=5))
@@ -141,6 +142,7 @@ class ShiftModel(Core.Model):
 
     def __init__(self, a):
         super().__init__(seed=1)
+        ambient_logger(self)
         self.a = a
         self.systems.add_system(ShiftRec('c', self))
 
@@ -519,6 +521,10 @@ def real_pool_errors(ctx):
             note='the real pool with a failing execution of every error kind: raises, never hangs')
 
 
+# the cheap legs run once more under the runner's ambient configurations (python -O, other logger levels)
+AMBIENT_LEGS = True
+
+
 def run(ctx):
     invalid_collectors(ctx)
     cases = list(serial_cases())
@@ -551,6 +557,8 @@ def run(ctx):
             except Violation as v:
                 ctx.report(case, v)
         ctx.leg('pool_reuse_real_pool', sequences=4)
+    if ctx.small:
+        return
     if not ctx.violations:
         real_pool_errors(ctx)
     if not ctx.violations:
